@@ -36,13 +36,13 @@ type c11Case struct {
 }
 
 type c11Outcome struct {
-	knownHits   []string
-	violation   string
-	labels      []string
-	log         []string
-	reconnects  int
-	switched    bool
-	nontrivial  bool
+	knownHits  []string
+	violation  string
+	labels     []string
+	log        []string
+	reconnects int
+	switched   bool
+	nontrivial bool
 }
 
 type liveConn struct {
@@ -186,7 +186,7 @@ func runC11(t *testing.T, c *c11Case, known func(string) bool) (out c11Outcome) 
 			}
 		}
 		var (
-			cur     *liveConn   // client side of the live connection
+			cur     *liveConn // client side of the live connection
 			curSrv  *srvSession
 			prevCli <-chan struct{}
 			skipped int
